@@ -216,6 +216,8 @@ def absop(op, A, B):
 
 
 def _safe_div(a, b):
+    if not L._symbolic(a, b) and float(b) == 0:
+        return float("nan")          # concrete replay: this outcome is guarded by the earlier `y == 0 -> ZeroDivisionError` case
     return L.div(a, b)
 
 
